@@ -43,6 +43,8 @@ fn gen(rng: &mut Rng) -> Case {
   let trackers = [
     "http://tracker.example/announce", "udp://t.example:6969/announce", "https://t.example/a?x=1&y=2", "http://t.example/p%20q?k=v%26w", "http://t.example/a+b?c=d+e",
     "wss://t.example/ws#frag", "http://[2001:db8::1]:8080/ann", "http://t.example/ü", "http://t.example/a b", "http://user:pw@t.example/x;y=z", "udp://1.2.3.4:80", "HTTP://UPPER.example/A",
+    // every character of the tracker's text counts, the last one included
+    "http://tracker.example/announce/", "udp://tracker.example:6969/", "http://bare.example", "http://t.example/?feed=/", "http://t.example/a//", "http://t.example/x?", "http://t.example/x#", "http://t.example/dir/.",
   ];
   // (domains may contain characters that are reserved in a query string)
   let peers = ["foo.com:1337", "1.2.3.4:6881", "[2001:db8::1]:80", "[::1]:1", "EXAMPLE.org:0080", "[::ffff:1.2.3.4]:9", "0x7f.1:5", "r&d.example:51413", "c++.example:6881", "k=v.example:2", "semi;colon.example:3", "a,b.example:4"];
